@@ -73,7 +73,14 @@ PROPERTY = "C15"
 
 LAYOUTS = ("c", "f", "view", "df", "dfmix", "dfarr")
 ROW_LAYOUTS = ("nd1", "series")  # a single observation handed over as a 1-D container (streaming detectors only)
+# a univariate BATCH handed over as a vector (batch detectors document that a 1-D input is coerced to one column)
+VEC_LAYOUTS = ("vec", "vecslice", "vecview", "ser", "serarr")
 LAYOUT_TEXT = {
+    "vec": "1-D ndarray holding a univariate batch",
+    "vecslice": "contiguous 1-D slice of a longer caller buffer holding a univariate batch",
+    "vecview": "strided 1-D view into a longer caller buffer holding a univariate batch",
+    "ser": "pandas Series holding a univariate batch",
+    "serarr": "pandas Series wrapping a caller ndarray (copy=False) holding a univariate batch",
     "nd1": "1-D ndarray holding the single row",
     "series": "pandas Series holding the single row",
     "c": "C-order ndarray",
@@ -129,6 +136,7 @@ def _fp_array(a):
 
 
 def _fp_frame(df):
+    dts = df.dtypes.tolist()
     return (
         "df",
         type(df).__name__,
@@ -139,8 +147,9 @@ def _fp_frame(df):
         type(df.index).__name__,
         str(df.index.dtype),
         tuple(repr(i) for i in df.index.tolist()),
-        tuple(str(t) for t in df.dtypes.tolist()),
-        tuple(df.iloc[:, j].to_numpy().tobytes() for j in range(df.shape[1])),
+        tuple(str(t) for t in dts),
+        # one dtype: the cell bytes in one go (no conversion happens); several dtypes: column by column
+        (df.to_numpy().tobytes(),) if len(set(dts)) == 1 and dts[0] != object else tuple(df.iloc[:, j].to_numpy().tobytes() for j in range(df.shape[1])),
     )
 
 
@@ -148,7 +157,7 @@ def fingerprint(obj):
     if isinstance(obj, np.ndarray):
         return _fp_array(obj)
     if isinstance(obj, pd.Series):
-        return ("series", str(obj.dtype), tuple(repr(i) for i in obj.index.tolist()), obj.to_numpy().tobytes())
+        return ("series", str(obj.dtype), tuple(repr(i) for i in obj.index.tolist()), obj.to_numpy().tobytes(), repr(obj.name), type(obj.index).__name__, str(obj.index.dtype))
     if isinstance(obj, pd.DataFrame):
         return _fp_frame(obj)
     return ("py", repr(obj))
@@ -157,11 +166,12 @@ def fingerprint(obj):
 def describe_fp_diff(a, b):
     if a[0] != b[0] or len(a) != len(b):
         return "kind"
-    names = (
-        ("kind", "dtype", "shape", "strides", "writeable", "c_contiguous", "f_contiguous", "bytes")
-        if a[0] == "nd"
-        else ("kind", "class", "shape", "columns class", "columns dtype", "columns", "index class", "index dtype", "index", "dtypes", "cell bytes")
-    )
+    if a[0] == "nd":
+        names = ("kind", "dtype", "shape", "strides", "writeable", "c_contiguous", "f_contiguous", "bytes")
+    elif a[0] == "series":
+        names = ("kind", "dtype", "index", "bytes", "name", "index class", "index dtype")
+    else:
+        names = ("kind", "class", "shape", "columns class", "columns dtype", "columns", "index class", "index dtype", "index", "dtypes", "cell bytes")
     return ", ".join(n for n, x, y in zip(names, a, b) if x != y)
 
 
@@ -188,6 +198,27 @@ class Held:
             if r != 1:
                 raise HarnessError("HARNESS-CRASH: 1-D layouts hold exactly one row")
             self.obj = pd.Series(np.array(data[0], copy=True), index=list(names))
+        elif layout in VEC_LAYOUTS:
+            if c != 1 or r < 2:
+                raise HarnessError("HARNESS-CRASH: vector layouts hold one column of at least two rows")
+            col = np.array(data[:, 0], copy=True)
+            if layout == "vec":
+                self.obj = col
+            elif layout == "vecslice":
+                buf = np.full(r + 5, -55, dtype=data.dtype)
+                buf[2 : 2 + r] = col
+                self.roots = [buf]
+                self.obj = buf[2 : 2 + r]
+            elif layout == "vecview":
+                buf = np.full(2 * r + 1, -55, dtype=data.dtype)
+                buf[1::2] = col
+                self.roots = [buf]
+                self.obj = buf[1::2]
+            elif layout == "ser":
+                self.obj = pd.Series(col, index=_index(r), name=names[0])
+            else:
+                self.roots = [col]
+                self.obj = pd.Series(col, index=_index(r), name=names[0], copy=False)
         elif layout == "c":
             self.obj = np.array(data, order="C", copy=True)
         elif layout == "f":
@@ -232,9 +263,9 @@ class Held:
         return out
 
     def live_probe(self):
-        """For frames: the array pandas hands out as ``.values`` if (and only if)
-        it is a window onto the frame's own memory."""
-        if not self.is_frame:
+        """For frames and Series: the array pandas hands out as ``.values`` if (and only if)
+        it is a window onto the container's own memory."""
+        if not isinstance(self.obj, (pd.DataFrame, pd.Series)):
             return None
         v = self.obj.values
         if any(np.shares_memory(v, b) for b in self.buffers()):
@@ -246,6 +277,9 @@ class Held:
         o = self.obj
         if isinstance(o, np.ndarray):
             o[...] = junk_for(o.shape, o.dtype, salt)
+        elif self.layout == "serarr":
+            a = self.roots[0]
+            a[...] = junk_for(a.shape, a.dtype, salt)
         elif isinstance(o, pd.Series):
             o.iloc[:] = junk_for(o.shape, o.dtype, salt)
         elif self.layout == "dfarr":
@@ -257,6 +291,26 @@ class Held:
             j2 = junk_for(o.shape, np.int64, salt)
             for j in range(o.shape[1]):
                 o.iloc[:, j] = j2[:, j].astype(o.dtypes.iloc[j])
+
+    def refill(self, data):
+        """The caller recycles its container: the next batch / observation is written into it in place."""
+        data = np.asarray(data)
+        o = self.obj
+        if isinstance(o, np.ndarray):
+            o[...] = data if o.ndim == 2 else (data[0] if self.layout in ROW_LAYOUTS else data[:, 0])
+        elif isinstance(o, pd.Series):
+            vec = data[0] if self.layout in ROW_LAYOUTS else data[:, 0]
+            if self.layout == "serarr":
+                self.roots[0][...] = vec
+            else:
+                o.iloc[:] = vec.astype(o.dtype)
+        elif self.layout == "dfarr":
+            self.roots[0][...] = data
+        elif self.layout == "df":
+            o.iloc[:, :] = data.astype(o.dtypes.iloc[0])
+        else:
+            for j, dt in enumerate(o.dtypes.tolist()):
+                o.iloc[:, j] = data[:, j].astype(dt)
 
     def __deepcopy__(self, memo):
         raise HarnessError("HARNESS-CRASH: caller containers must never be deep-copied (aliases would be cut)")
@@ -412,9 +466,10 @@ class Fam:
     layouts = LAYOUTS
     is_batch = False
 
-    def __init__(self, name):
-        self.name = name
-        self.d = DRIVERS.get(name)
+    def __init__(self, name, driver=None):
+        self.name = name  # system / label / counter name
+        self.sig_name = driver or name  # the detector class, for violation signatures
+        self.d = DRIVERS.get(driver or name)
 
     def configs(self, tier):
         return self.d.configs(tier)
@@ -459,13 +514,15 @@ class PCAFam(Fam):
 class BatchFam(Fam):
     is_batch = True
 
-    def __init__(self, name):
-        super().__init__(name)
-        self.menu = self.d.menu
+    def __init__(self, name, driver=None, menu=None, layouts=None):
+        super().__init__(name, driver)
+        self.menu = self.d.menu if menu is None else menu
         w = self.menu[0].shape[1]
         self.names = ["a", "b", "c"][:w]
         if w == 1:
             self.layouts = ("c", "f", "view", "df", "dfarr")
+        if layouts is not None:
+            self.layouts = tuple(layouts)
 
     def alphabet(self, p, ref):
         return list(self.d.alphabet(p)) + [["ref", 1], ["ref", 3]]
@@ -474,7 +531,7 @@ class BatchFam(Fam):
         if isinstance(ev, (list, tuple)):
             return "set_reference", "reference", [("X", self.menu[ev[1]], self.names, None)], {}
         kind = "test"
-        if self.name == "KdqTreeBatch" and getattr(ref, "_kdqtree", True) is None:
+        if self.sig_name == "KdqTreeBatch" and getattr(ref, "_kdqtree", True) is None:
             kind = "reference"  # documented: the first batch given to update is the reference
         return "update", kind, [("X", self.menu[ev], self.names, None)], {}
 
@@ -577,6 +634,12 @@ for _n in ("ADWIN", "CUSUM", "PageHinkley", "KdqTreeStreaming"):
 FAMILIES["PCACD"] = PCAFam("PCACD")
 for _n in ("HDDDM", "CDBD", "KdqTreeBatch", "NNDVI"):
     FAMILIES[_n] = BatchFam(_n)
+# every batch detector fed UNIVARIATE batches as vectors (1-D ndarray, 1-D slices / strided views of a longer
+# caller buffer, Series): the documented "row vector is coerced into a column vector" path of BatchDetector._validate_X
+VEC_FAMILY = {}
+for _n in ("NNDVI", "HDDDM", "CDBD", "KdqTreeBatch"):
+    VEC_FAMILY[_n] = _n + "~vec"
+    FAMILIES[_n + "~vec"] = BatchFam(_n + "~vec", driver=_n, menu=BATCH_1D, layouts=VEC_LAYOUTS)
 FAMILIES["MD3"] = MD3Fam("MD3")
 FAMILIES["StreamingEnsemble"] = StreamEnsFam("StreamingEnsemble")
 FAMILIES["BatchEnsemble"] = BatchEnsFam("BatchEnsemble")
@@ -595,6 +658,7 @@ class Live:
         self.held = []  # the caller keeps (and may reuse) everything it ever passed
         self.overwritten = []  # positions whose containers were overwritten
         self.adopted_ow = False  # a drifted batch was adopted and then overwritten
+        self.buffers = {}  # ow == "reuse": the containers the caller recycles
         rng.seed_step(0, fam.name, cfg["id"], "init")
         self.det = fam.new(cfg["params"])
         rng.seed_step(0, fam.name, cfg["id"], "init")
@@ -607,6 +671,7 @@ class Live:
         new = Live.__new__(Live)
         new.fam, new.cfg, new.seed = self.fam, self.cfg, self.seed
         new.events, new.calls, new.held, new.overwritten = [], [], [], []
+        new.buffers = {}
         new.adopted_ow = self.adopted_ow
         rng.seed_step(0, self.fam.name, self.cfg["id"], "init")
         new.det = self.fam.new(self.cfg["params"])
@@ -628,8 +693,25 @@ class Live:
                 raise HarnessError("HARNESS-CRASH: seed changed inside a history")
         call = recorded if quiet else fam.plan(ev, p, self.twin)
         method, kind, specs, extra = call
-        held = {a: Held(layout, data, names, dts) for a, data, names, dts in specs}
-        where = "%s.%s(%s) at position %d [%s]" % (fam.name, method, ", ".join(held), pos, LAYOUT_TEXT[layout])
+        if cfg["ow"] == "reuse":
+            # the caller owns ONE container per (argument, shape, dtypes): it writes the next batch / observation into
+            # it in place and hands over the very same object again
+            held = {}
+            for a, data, names, dts in specs:
+                data = np.asarray(data)
+                bkey = (a, tuple(data.shape), str(data.dtype), tuple(names), None if dts is None else tuple(str(t) for t in dts))
+                h = self.buffers.get(bkey)
+                if h is None:
+                    h = self.buffers[bkey] = Held(layout, data, names, dts)
+                else:
+                    h.refill(data)
+                    if not quiet:
+                        ctx.mark("same_container_object_refilled_and_passed_again")
+                        ctx.count("refilled_layout:%s" % layout)
+                held[a] = h
+        else:
+            held = {a: Held(layout, data, names, dts) for a, data, names, dts in specs}
+        where = "%s.%s(%s) at position %d [%s]" % (fam.sig_name, method, ", ".join(held), pos, LAYOUT_TEXT[layout])
 
         # ---- D: caller-owned containers ---------------------------------------
         before = None if quiet else {a: h.fingerprint() for a, h in held.items()}
@@ -656,7 +738,7 @@ class Live:
                         "%s modified its argument %r (%s changed) during the call" % (where, a, describe_fp_diff(before[a][0], after[0]) or "the array the view was cut from"),
                         expected="argument bit-for-bit as passed",
                         observed=jsonable(_conv(h.obj)),
-                        sig="argument-modified:%s:%s:%s" % (fam.name, method, "DataFrame" if h.is_frame else "ndarray"),
+                        sig="argument-modified:%s:%s:%s" % (fam.sig_name, method, type(h.obj).__name__),
                     )
             ctx.count("arguments_compared_before_after", len(held))
 
@@ -669,7 +751,11 @@ class Live:
         except Exception as e:  # noqa: BLE001
             t_exc = e
 
-        ow_txt = "the caller had overwritten what it passed at position(s) %s" % self.overwritten
+        ow_txt = (
+            "the caller recycles one container per argument: it writes the next data into it in place and passes the same object again"
+            if cfg["ow"] == "reuse"
+            else "the caller had overwritten what it passed at position(s) %s" % self.overwritten
+        )
         if (d_exc is None) != (t_exc is None) or (d_exc is not None and type(d_exc) is not type(t_exc)):
             raise Violation(
                 "exception-differs-from-private-copy-run",
@@ -677,7 +763,7 @@ class Live:
                 % (where, "raised %r" % d_exc if d_exc is not None else "was accepted", "raised %r" % t_exc if t_exc is not None else "was accepted", ow_txt, self._alias_note()),
                 expected=repr(t_exc),
                 observed=repr(d_exc),
-                sig="live-reference:%s" % fam.name,
+                sig="live-reference:%s" % fam.sig_name,
             )
         if d_exc is not None:
             ctx.terminal = True
@@ -693,7 +779,7 @@ class Live:
                 "%s: public observables %s differ from the run on private copies; %s%s" % (where, bad, ow_txt, self._alias_note()),
                 expected={k: ot.get(k) for k in bad},
                 observed={k: od.get(k) for k in bad},
-                sig="live-reference:%s" % fam.name,
+                sig="live-reference:%s" % fam.sig_name,
             )
         ctx.count("twin_compared_steps")
         ctx.count("layout:%s" % layout)
@@ -725,7 +811,7 @@ class Live:
                     % (where, "/".join(held), bad, self._alias_note()),
                     expected={k: ot.get(k) for k in bad},
                     observed={k: od2.get(k) for k in bad},
-                    sig="live-reference:%s" % fam.name,
+                    sig="live-reference:%s" % fam.sig_name,
                 )
             if alias_paths(self.det, [b for h in held.values() for b in h.buffers()]):
                 ctx.count("diagnostic_private_alias_of_overwritten_container")
@@ -747,6 +833,10 @@ class Live:
                 if probe is not None and np.array_equal(probe, junk_for(probe.shape, probe.dtype, pos)):
                     # what .values handed out before the overwrite now shows the junk: a view case
                     ctx.count("dataframe_values_is_live_view_cases")
+            elif ctx is not None and isinstance(h.obj, pd.Series):
+                ctx.count("series_overwrites")
+                if probe is not None and np.array_equal(probe, junk_for(probe.shape, probe.dtype, pos)):
+                    ctx.count("series_values_is_live_view_cases")
         self.overwritten.append(pos)
         if ctx is not None:
             ctx.mark("overwrite_after_%s" % {"reference": "reference_batch", "test": "test_batch", "observation": "single_observation"}[kind])
@@ -981,10 +1071,283 @@ class InjectorSystem(System):
 
 
 # =============================================================================
+# injector objects used several times: chains of calls on data the caller already holds
+# =============================================================================
+CHAIN = "~chain"
+_CHAIN_ARGS = {
+    "FeatureShiftInjector": [{"col": 0, "shift_factor": 0.5}, {"col": 1, "shift_factor": -0.25}],
+    "FeatureSwapInjector": [{"col_1": 0, "col_2": 1}, {"col_1": 1, "col_2": 2}],
+    "LabelSwapInjector": [{"target_col": 2, "class_1": 0, "class_2": 1}, {"target_col": 2, "class_1": 1, "class_2": 2}],
+    "LabelJoinInjector": [{"target_col": 2, "class_1": 0, "class_2": 1, "new_class": 5}, {"target_col": 2, "class_1": 1, "class_2": 2, "new_class": 0}],
+    "LabelProbabilityInjector": [{"target_col": 2, "class_probabilities": [[0, 0.5]]}, {"target_col": 2, "class_probabilities": [[1, 1.0]]}],
+    "LabelDirichletInjector": [{"target_col": 2, "alpha": [[0, 4], [1, 1]]}, {"target_col": 2, "alpha": [[0, 1], [1, 2]]}],
+    "BrownianNoiseInjector": [{"col": 0, "x0": 0.5, "random_state": 3}, {"col": 1, "x0": 1.0, "random_state": 4}],
+}
+
+
+def chain_moves(name, n):
+    """what one call of a chain may be (window x argument menu); moves[0] is the chain's opening call"""
+    if name == "FeatureCoverInjector":  # no window; the result has one column less, so later calls name another column
+        return [{"args": {"col": 2, "sample_size": 4, "random_state": 0}}, {"args": {"col": 1, "sample_size": 3, "random_state": 1}}]
+    return [{"from": f, "to": t, "args": a} for f, t in ((0, n), (1, 3), (0, 2)) for a in _CHAIN_ARGS[name]]
+
+
+CHAIN3_LAYOUTS = ("c", "df")  # quick tier: chains of three calls on these layouts only (pandas makes them slow)
+
+
+def injector_chains(name, dk, tier, layout):
+    """Every chain of the stated shape.  A call = (where its input comes from, which of two injector objects of the
+    class runs it, move).  Sources: "new" = a fresh caller container of the layout, "out<j>" = the object call j
+    returned, "in<j>" = the very object call j was given (it must still be what it was)."""
+    n = len(INJ_DATA[dk])
+    mv = chain_moves(name, n)
+    quick = tier == "quick"
+    first = [mv[0]] if len(mv) == 2 or (quick and dk != "A") else [mv[0], mv[4]]
+    second = mv[:4] if quick else mv
+    out = []
+    for m1 in first:
+        for src in ("new", "out1", "in1"):
+            for ob in (0, 1):
+                for m2 in second:
+                    out.append({"data": dk, "calls": [dict(m1, src="new", obj=0), dict(m2, src=src, obj=ob)]})
+    if (dk == "A" and layout in CHAIN3_LAYOUTS) or not quick:
+        m2s = [mv[min(3, len(mv) - 1)]] if quick else mv[2:4] or mv
+        m3s = mv[:2]
+        src3 = ("out1", "out2", "in1") if quick else ("new", "out1", "out2", "in1", "in2")
+        for s2 in ("new", "out1", "in1"):
+            for o2 in (0, 1):
+                for m2 in m2s:
+                    for s3 in src3:
+                        for o3 in (0, 1):
+                            for m3 in m3s:
+                                out.append({"data": dk, "calls": [dict(mv[0], src="new", obj=0), dict(m2, src=s2, obj=o2), dict(m3, src=s3, obj=o3)]})
+    return out
+
+
+def _private_copy(obj):
+    if isinstance(obj, pd.DataFrame):
+        return obj.copy(deep=True)
+    return np.array(obj, order="K", copy=True)
+
+
+def _buffers_of(obj):
+    if isinstance(obj, pd.DataFrame):
+        return [obj.iloc[:, j].to_numpy() for j in range(obj.shape[1])]
+    return [obj]
+
+
+def _overwrite_result(obj, salt):
+    """the caller reuses an object an injector returned; False if it cannot be written in place"""
+    if isinstance(obj, np.ndarray):
+        if not obj.flags.writeable or not obj.size:
+            return False
+        obj[...] = junk_for(obj.shape, np.int64, salt).astype(obj.dtype)
+        return True
+    if not obj.size:
+        return False
+    j2 = junk_for(obj.shape, np.int64, salt)
+    for j, dt in enumerate(obj.dtypes.tolist()):
+        obj.iloc[:, j] = j2[:, j] if dt == object else j2[:, j].astype(dt)
+    return True
+
+
+class InjectorChainSystem(System):
+    """One chain of calls = one execution (the event is the complete chain description).
+
+    The caller keeps every object it passed and every object it got back.  After each call: every object the caller
+    holds is bit-for-bit what it was (the call's own input included); the result is an object the caller did not hold
+    before, of the input's container type, sharing memory with nothing the caller holds; the result equals, bit for
+    bit, what a brand-new injector object returns for a private copy of the input under the same seed (and both raise
+    or neither).  At the end the caller overwrites each object in turn: no other object may follow."""
+
+    def __init__(self, name):
+        self.base = name
+        self.name = name + CHAIN
+        self.cls = INJECTORS[name]
+
+    def init(self, cfg):
+        return {}
+
+    def alphabet(self, cfg, state, pos):
+        return injector_chains(self.base, cfg["data"], cfg.get("tier", "quick"), cfg["layout"]) if pos == 0 else []
+
+    def _args(self, call, frame):
+        args = {}
+        for k, v in call["args"].items():
+            if k in ("col", "col_1", "col_2", "target_col") and frame:
+                v = INJ_COLS[v]
+            if k in ("class_probabilities", "alpha"):
+                v = {a: b for a, b in v}
+            args[k] = v
+        if "from" in call:
+            args["from_index"], args["to_index"] = call["from"], call["to"]
+        return args
+
+    def step(self, cfg, state, ev, pos, ctx):
+        layout = cfg["layout"]
+        base = self.base
+        data = np.array(INJ_DATA[ev["data"]], dtype=float)
+        calls = ev["calls"]
+        # where the object given to call k was born: ("new", k) or ("out", j)
+        origin = {}
+        for k, call in enumerate(calls, 1):
+            src = call["src"]
+            origin[k] = ("new", k) if src == "new" else ("out", int(src[3:])) if src.startswith("out") else origin[int(src[2:])]
+        # reference run, executed completely BEFORE the caller's chain (so that state an implementation might keep on
+        # the class cannot be disturbed by it): every call on a brand-new injector object and on a private object of
+        # the same layout and content, same seeds
+        touts, texcs = {}, {}
+        for k, call in enumerate(calls, 1):
+            kind, j = origin[k]
+            if kind == "out" and j not in touts:
+                break
+            tin = Held(layout, data, INJ_COLS, INJ_MIX).obj if kind == "new" else _private_copy(touts[j])
+            rng.seed_step(ctx.seed, base, cfg["id"], "chain", k)
+            try:
+                touts[k] = self.cls()(tin, **self._args(call, isinstance(tin, pd.DataFrame)))
+            except Exception as e:  # noqa: BLE001
+                texcs[k] = e
+                break
+        tfps = {k: fingerprint(v) for k, v in touts.items()}
+        del tin
+
+        injs = [self.cls(), self.cls()]
+        held = []  # [label, object, fingerprint function, fingerprint, overwrite function, the object's buffers]
+        ins, outs = {}, {}
+        done = 0
+        for k, call in enumerate(calls, 1):
+            src = call["src"]
+            if src == "new":
+                h = Held(layout, data, INJ_COLS, INJ_MIX)
+                obj = h.obj
+                held.append(["the input of call %d" % k, obj, h.fingerprint, h.fingerprint(), h.overwrite, h.buffers()])
+                ctx.count("chain_src:new")
+            elif src.startswith("out"):
+                j = int(src[3:])
+                if j not in outs:
+                    break  # the earlier call did not complete: nothing to pass on
+                obj = outs[j]
+                ctx.mark("chain_src:own_earlier_result")
+            else:
+                obj = ins[int(src[2:])]
+                ctx.mark("chain_src:same_input_again")
+            ins[k] = obj
+            frame = isinstance(obj, pd.DataFrame)
+            args = self._args(call, frame)
+            desc = "%s call %d of the chain %s [%s, data %s]: %s(%s, %s) on injector object #%d" % (
+                base, k, json.dumps([c["src"] + "@%d" % c["obj"] for c in ev["calls"]]), LAYOUT_TEXT[layout], ev["data"], base,
+                {"new": "a fresh container", "out": "the result of call " + src[3:], "in": "the input of call " + src[2:] + " again"}[src.rstrip("0123456789")],
+                ", ".join("%s=%r" % kv for kv in args.items()), call["obj"],
+            )
+            if call["obj"] == 1:
+                ctx.count("chain_second_injector_object")
+            rng.seed_step(ctx.seed, base, cfg["id"], "chain", k)
+            exc = out = None
+            try:
+                out = injs[call["obj"]](obj, **args)
+            except Exception as e:  # noqa: BLE001 - compared with the fresh injector below
+                exc = e
+            tag = " (the call raised %s)" % type(exc).__name__ if exc is not None else ""
+            for e in held:
+                now = e[2]()
+                if now != e[3]:
+                    mine = e[1] is obj
+                    raise Violation(
+                        "input-modified" if mine else "held-object-modified",
+                        "%s modified %s, which belongs to the caller (%s changed)%s"
+                        % (desc, "its input" if mine else e[0], describe_fp_diff(e[3][0], now[0]) or "the array the view was cut from", tag),
+                        expected="bit-for-bit unchanged",
+                        observed=jsonable(_conv(e[1])),
+                        sig="%s:%s" % ("input-modified" if mine else "held-object-modified", base),
+                    )
+            ctx.count("chain_held_objects_compared", len(held))
+            texc, tout = texcs.get(k), touts.get(k)
+            if texc is None and tout is None:
+                raise HarnessError("HARNESS-CRASH: the reference run ended before call %d although the caller's chain did not" % k)
+            if (exc is None) != (texc is None) or (exc is not None and type(exc) is not type(texc)):
+                raise Violation(
+                    "differs-from-fresh-injector-on-private-copy",
+                    "%s %s, whereas a new injector object given a private copy of the same data %s"
+                    % (desc, "raised %r" % exc if exc is not None else "returned", "raised %r" % texc if texc is not None else "returned"),
+                    expected=repr(texc),
+                    observed=repr(exc),
+                    sig="injector-keeps-state:%s" % base,
+                )
+            if exc is not None:
+                ctx.count("chain_agreed_exception:%s" % type(exc).__name__)
+                break
+            if (frame and not isinstance(out, pd.DataFrame)) or (not frame and type(out) is not np.ndarray):
+                raise Violation("container-type", "%s returned a %s" % (desc, type(out).__name__), expected=type(obj).__name__, observed=type(out).__name__, sig="container-type:%s" % base)
+            for e in held:
+                if out is e[1]:
+                    raise Violation(
+                        "result-is-held-object",
+                        "%s returned %s itself instead of a new object" % (desc, "its input" if e[1] is obj else e[0]),
+                        sig="shares-memory:%s" % base,
+                    )
+            obufs = _buffers_of(out)
+            for ob in obufs:
+                if ob.dtype == object or not ob.size:
+                    continue
+                for e in held:
+                    if any(ib.size and ib.dtype != object and np.shares_memory(ob, ib) for ib in e[5]):
+                        raise Violation(
+                            "result-shares-memory-with-held-object",
+                            "%s: the result shares memory with %s" % (desc, "its input" if e[1] is obj else e[0]),
+                            expected="np.shares_memory == False",
+                            observed="np.shares_memory == True",
+                            sig="shares-memory:%s" % base,
+                        )
+            ctx.count("shares_memory_checked")
+            fo, ft = fingerprint(out), tfps[k]
+            if fo != ft:
+                raise Violation(
+                    "differs-from-fresh-injector-on-private-copy",
+                    "%s: the result differs (%s) from what a new injector object returns for a private copy of the same data" % (desc, describe_fp_diff(fo, ft)),
+                    expected=jsonable(_conv(tout)),
+                    observed=jsonable(_conv(out)),
+                    sig="injector-keeps-state:%s" % base,
+                )
+            ctx.count("chain_calls_compared_with_fresh_injector")
+            outs[k] = out
+            held.append(["the result of call %d" % k, out, (lambda o=out: (fingerprint(o),)), (fo,), (lambda salt, o=out: _overwrite_result(o, salt)), obufs])
+            done = k
+        # the caller reuses, one after the other, everything it holds (first what it passed, then what it got back, in
+        # chain order); nothing it has not overwritten yet may follow
+        for i, e in enumerate(held):
+            e.append(0 if e[0].startswith("the input") else 1)
+        order = sorted(range(len(held)), key=lambda i: (held[i][6], i))
+        for n_done, i in enumerate(order):
+            e = held[i]
+            if e[4](50 + i) is False:
+                ctx.count("chain_result_not_writable_or_empty")
+                continue
+            later = [held[j] for j in order[n_done + 1 :]]
+            if e[6] == 1 and e[2]() == e[3]:
+                raise HarnessError("HARNESS-VACUOUS: overwrite did not change %s" % e[0])
+            if e[6] == 0 and any(x[6] == 0 for x in later):
+                continue  # all inputs are overwritten before the first comparison
+            for e2 in later:
+                if e2[2]() != e2[3]:
+                    raise Violation(
+                        "held-object-follows-overwrite",
+                        "%s chain %s [%s, data %s]: when the caller overwrote %s in place, %s changed as well"
+                        % (base, json.dumps(ev["calls"]), LAYOUT_TEXT[layout], ev["data"], "what it had passed" if e[6] == 0 else e[0], e2[0]),
+                        sig="shares-memory:%s" % base,
+                    )
+            ctx.mark("overwrite_after_injector_chain")
+        ctx.count("layout:%s" % layout)
+        ctx.count("injector_chain:%s" % base)
+        ctx.count("chain_completed_calls:%d" % done)
+        return {"outcome": "ok", "calls_completed": done}
+
+
+# =============================================================================
 # plans
 # =============================================================================
 SYSTEMS = {n: DetSystem(f) for n, f in FAMILIES.items()}
 SYSTEMS.update({n: InjectorSystem(n) for n in INJECTORS})
+SYSTEMS.update({n + CHAIN: InjectorChainSystem(n) for n in INJECTORS})
 
 R0, R1, R3 = ["ref", 0], ["ref", 1], ["ref", 3]
 Q, T = "quick", "thorough"
@@ -1047,6 +1410,20 @@ _plan("KdqTreeBatch", 2, [1, 0], [0, 1, R1], 1, 2)  # first update doubles as th
 _plan("NNDVI", 0, [R0, 1], [0, 1, 3, R1], 2, None)
 _plan("NNDVI", 0, [R0, 1], None, None, 3)
 _plan("NNDVI", 1, [R0], [0, 1, R1, R3], 2, 3)
+# univariate batches handed over as vectors (VEC_LAYOUTS); menus = BATCH_1D
+_plan("NNDVI~vec", 0, [R0, 1], [0, 1, 3, R1], 2, None)
+_plan("NNDVI~vec", 0, [R0, 1], [0, 1, 3, R1], None, 3)
+_plan("NNDVI~vec", 1, [R0], [0, 1, R1, R3], 2, 3)
+for _n in ("HDDDM~vec", "CDBD~vec"):
+    _plan(_n, 0, [R0, 1], _A4, 2, None)  # detect_batch 1: the drifted vector batch is adopted as reference
+    _plan(_n, 1, [R0, 0, 1], _A4, 1, None)
+    _plan(_n, 0, [R0, 1], _A4, None, 3)
+    _plan(_n, 1, [R0, 0, 1], None, None, 2)
+    _plan(_n, 2, [R0, 0, 0, 1], _A4, None, 2)
+    _plan(_n, 3, [R0, 0, 1], _A4, None, 2)
+_plan("KdqTreeBatch~vec", 0, [R0, 1], [0, 1, R1], 1, None)
+_plan("KdqTreeBatch~vec", 0, [R0, 1], [0, 1, R1], None, 2)
+_plan("KdqTreeBatch~vec", 2, [1, 0], [0, 1, R1], None, 1)  # first update doubles as the reference
 _plan("MD3", 0, ["ref", "u_in", "u_in", "u_in"], None, 3, 5)  # warning, then two labels -> drift and re-reference
 _plan("MD3", 1, ["ref", "u_in", "u_in"], None, 4, 5)
 _plan("MD3", 2, ["ref"], None, None, 4)
@@ -1056,11 +1433,15 @@ _plan("BatchEnsemble", 1, [R0, 1], [0, 1, R1], 1, 2)
 _plan("BatchEnsemble", 0, [R0, 1], [0, 1, R1], None, 2)
 
 # measured ms per checked call (for load balancing only)
-COST = {"NNDVI": 12, "BatchEnsemble": 50, "KdqTreeBatch": 60, "HDDDM": 7, "CDBD": 5, "PCACD": 6, "KdqTreeStreaming": 25, "MD3": 10, "LinearFourRates": 9, "StreamingEnsemble": 3}
+COST = {"NNDVI~vec": 12, "KdqTreeBatch~vec": 60, "HDDDM~vec": 7, "CDBD~vec": 5, "NNDVI": 12, "BatchEnsemble": 50, "KdqTreeBatch": 60, "HDDDM": 7, "CDBD": 5, "PCACD": 6, "KdqTreeStreaming": 25, "MD3": 10, "LinearFourRates": 9, "StreamingEnsemble": 3}
 
 
 class _FreshRef:
     waiting_for_oracle = False
+
+
+# layouts that are also run with ONE recycled container per argument (refilled in place and passed again at every call)
+REUSE_LAYOUTS = ("c", "df", "vec", "ser", "nd1")
 
 
 def _ow_positions(L):
@@ -1081,7 +1462,7 @@ def tasks(tier, seed):
             L = len(prefix) + depth
             width = len(pl["alphabet"] or fam.alphabet(p, _FreshRef()))
             for layout in fam.layouts:
-                for ow in _ow_positions(L):
+                for ow in _ow_positions(L) + (["reuse"] if layout in REUSE_LAYOUTS else []):
                     cfg = {"id": ci, "params": p, "layout": layout, "ow": ow, "alphabet": pl["alphabet"]}
                     out.append(
                         {
@@ -1107,11 +1488,25 @@ def tasks(tier, seed):
                     "validate_every": 37,
                 }
             )
+    for name in INJECTORS:
+        for layout in LAYOUTS:
+            for dk in INJ_DATA:
+                out.append(
+                    {
+                        "system": name + CHAIN,
+                        "cfg": {"id": 0, "layout": layout, "tier": tier, "data": dk},
+                        "prefix": [],
+                        "depth": 1,
+                        "label": "%s%s|%s|%s" % (name, CHAIN, layout, dk),
+                        "cost": 400,
+                        "validate_every": 41,
+                    }
+                )
     return out
 
 
-ADOPTERS = ("HDDDM", "CDBD", "KdqTreeBatch", "NNDVI")
-_SEED_DEPENDENT = ("KdqTreeBatch", "KdqTreeStreaming", "NNDVI", "LinearFourRates", "BatchEnsemble", "StreamingEnsemble")
+ADOPTERS = ("HDDDM", "CDBD", "KdqTreeBatch", "NNDVI") + tuple(VEC_FAMILY.values())
+_SEED_DEPENDENT = ("KdqTreeBatch", "KdqTreeStreaming", "NNDVI", "LinearFourRates", "BatchEnsemble", "StreamingEnsemble", "KdqTreeBatch~vec", "NNDVI~vec")
 REQUIRED = (
     [
         "overwrite_after_reference_batch",
@@ -1131,14 +1526,27 @@ REQUIRED = (
         "container:ndarray",
         "container:DataFrame",
     ]
-    + ["overwrite_layout:%s" % l for l in LAYOUTS + ROW_LAYOUTS]
-    + ["layout:%s" % l for l in LAYOUTS + ROW_LAYOUTS]
+    + ["overwrite_layout:%s" % l for l in LAYOUTS + ROW_LAYOUTS + VEC_LAYOUTS]
+    + ["layout:%s" % l for l in LAYOUTS + ROW_LAYOUTS + VEC_LAYOUTS]
+    + ["series_values_is_live_view_cases", "same_container_object_refilled_and_passed_again"]
+    + ["refilled_layout:%s" % l for l in REUSE_LAYOUTS]
+    + ["call:%s.%s" % (n, m) for n in VEC_FAMILY.values() for m in ("set_reference", "update")]
     # per-family counters are demanded only where they do not depend on bootstrap / permutation / Monte-Carlo draws
     # (those vary with VERIF_SEED; the stochastic families are still counted and reported)
     + ["update_after_adopted_batch_was_overwritten:%s" % n for n in ADOPTERS if n not in _SEED_DEPENDENT]
     + ["drift:%s" % n for n in FAMILIES if n not in _SEED_DEPENDENT]
     + ["call:MD3.update", "call:MD3.set_reference", "call:MD3.give_oracle_label"]
     + ["injector:%s" % n for n in INJECTORS]
+    + ["injector_chain:%s" % n for n in INJECTORS]
+    + [
+        "chain_src:own_earlier_result",
+        "chain_src:same_input_again",
+        "chain_second_injector_object",
+        "chain_calls_compared_with_fresh_injector",
+        "chain_completed_calls:2",
+        "chain_completed_calls:3",
+        "overwrite_after_injector_chain",
+    ]
 )
 
 
@@ -1161,11 +1569,12 @@ def describe(tier):
                 )
             )
     return {
-        "rule": "detectors: per detector, parameter set and container layout, a scripted valid history that runs into an alarm "
+        "rule": "detectors (incl. the <detector>~vec systems: univariate batches handed over as vectors): per detector, parameter set and container layout, a scripted valid history that runs into an alarm "
         "followed by every continuation of the stated length; each such history is executed once per overwrite pattern "
         "(after exactly one call, for every position, and after every call) on a detector fed caller-owned containers and, "
         "in lock-step, on a twin fed private containers; injectors: every (injector, layout, data set, window, argument "
-        "menu entry) is one execution; non-trivial = an execution containing a caller overwrite, an alarm or a dict argument",
+        "menu entry) is one execution, and every chain of two / three calls of the stated shape on one or two injector objects "
+        "of a class is one execution; non-trivial = an execution containing a caller overwrite, an alarm or a dict argument",
         "bounds": {
             "layouts": LAYOUT_TEXT,
             "detector_plans": plans,
@@ -1173,6 +1582,22 @@ def describe(tier):
             "injector_data": {k: "%d rows x 3 columns" % len(v) for k, v in INJ_DATA.items()},
             "injector_windows": "every 0 <= from <= to <= n",
             "injector_cases_per_layout": {n: len(injector_cases(n, tier)) for n in INJECTORS},
+            "vector_families": "systems <detector>~vec: NNDVI, HDDDM, CDBD, KdqTreeBatch fed the univariate menu BATCH_1D with every batch "
+            "(set_reference and update) handed over as a vector: layouts %s" % "/".join(VEC_LAYOUTS),
+            "injector_chains": {
+                "systems": "<injector>~chain, one execution per chain, per layout (%s) and data set" % "/".join(LAYOUTS),
+                "call": "input source (new = fresh caller container of the layout, out<j> = the object call j returned, in<j> = the very "
+                "object call j received) x which of two injector objects of the class runs it x move (window x argument menu)",
+                "moves_for_data_A (data B: the full window is 0..5)": {n: chain_moves(n, 4) for n in INJECTORS},
+                "two_calls": "call 1 = new container, object #0, move 0%s; call 2 = {new, out1, in1} x {object #0, #1} x %s"
+                % ((" (data A also move 4)", "moves 0-3") if tier == "quick" else (" or move 4", "every move")),
+                "three_calls": (
+                    "data A, layouts %s: call 1 = move 0; call 2 = {new, out1, in1} x {#0, #1} x move 3; call 3 = {out1, out2, in1} x {#0, #1} x moves 0-1" % "/".join(CHAIN3_LAYOUTS)
+                    if tier == "quick"
+                    else "all data sets and layouts: call 1 = move 0; call 2 = {new, out1, in1} x {#0, #1} x moves 2-3; call 3 = {new, out1, out2, in1, in2} x {#0, #1} x moves 0-1"
+                ),
+                "chains_per_layout": {n: sum(len(injector_chains(n, dk, tier, "c")) for dk in INJ_DATA) for n in INJECTORS},
+            },
             "junk": "777 + 13*position + 3*arange(size), cast to the container's dtype(s)",
         },
         "explanation": "oracle (a): fingerprint of every argument (dtype, shape, strides, flags, bytes; frames: class, columns, "
@@ -1182,7 +1607,14 @@ def describe(tier):
         "ensemble members recursively) of the detector equal the twin's, bit for bit, after every call and again after the "
         "caller's overwrite, and both raise or neither does; node snapshots re-execute the history instead of deep-copying "
         "it, so that retained views stay views; injectors: input fingerprint, dict arguments (deep equality and key order), "
-        "container type, np.shares_memory(result columns, input buffers), result unchanged after the input is overwritten",
+        "container type, np.shares_memory(result columns, input buffers), result unchanged after the input is overwritten; "
+        "injector chains (the same injector object(s) called two or three times on containers the caller already holds - "
+        "fresh ones, earlier results, an earlier input again): after every call each object the caller holds (all earlier "
+        "inputs and results) has its fingerprint of before the call, the result is none of the held objects, has the input's "
+        "container type, shares memory with none of them and is bit-for-bit what a brand-new injector object returns for a "
+        "private copy of the same data under the same seed (that reference run is executed completely before the chain, and "
+        "both raise the same exception type or neither raises); finally the caller overwrites everything it passed and then "
+        "each result in turn: no object not yet overwritten may change",
         "assumptions": [
             "a caller overwrite is an in-place write through the object that was passed (ndarray: arr[...] = junk; DataFrame: "
             "df.iloc[:, :] = junk, column-wise for mixed dtypes; frame wrapping an ndarray: write through the ndarray)",
@@ -1190,7 +1622,16 @@ def describe(tier):
             "the counter dataframe_values_is_live_view_cases proves the explored frames really are of that kind",
             "private state is read only to name the aliasing attribute in messages (np.shares_memory walk), never to decide",
             "whether an injector call may raise (empty windows, unknown classes, oversize samples) is C20's business: "
-            "a raising call is still required to leave its arguments untouched",
+            "a raising call is still required to leave its arguments untouched; a chain ends at a call that raises (the "
+            "reference injector must raise the same exception type)",
+            "a pandas Series is overwritten through Series.iloc[:] (or through the ndarray it wraps); under pandas 3 "
+            "np.asarray(series) / Series.to_numpy() is a read-only view that follows such a write "
+            "(counter series_values_is_live_view_cases); a Series cut from a caller frame (df['a']) is not explored: "
+            "copy-on-write detaches it on either side's first write, so no alias can show",
+            "results an injector returns as read-only arrays (FeatureCoverInjector on ndarray input hands back "
+            "DataFrame.to_numpy()) or empty results are not overwritten in the chain's last phase (counter chain_result_not_writable_or_empty)",
+            "vector inputs are explored for the batch detectors' X only: y_true / y_pred of the error-rate detectors are reduced "
+            "to one int inside update() and never stored, and batch y arguments are unused (C16)",
             "MD3 runs with the deterministic stub classifier of checks/drivers.py; its frames are single-dtype (label as float), "
             "mixed-dtype (float64/float32/int64) and ndarray-backed",
             "numpy's global RNG is re-seeded from (VERIF_SEED, detector, parameter set, position) before the detector's and before the twin's call",
